@@ -1,0 +1,83 @@
+//go:build verif
+
+package archive
+
+import (
+	"archive/tar"
+	"time"
+
+	"github.com/moby/sys/user"
+)
+
+// Exports for the verification harness (/verif). Compiled only with -tags verif; adds no behaviour.
+
+// VerifParseDirent exposes parseDirent on a raw getdents buffer.
+func VerifParseDirent(buf []byte) (consumed int, names []string, inos []uint64) {
+	n, nis := parseDirent(buf, nil)
+	for _, ni := range nis {
+		names = append(names, ni.name)
+		inos = append(inos, ni.ino)
+	}
+	return n, names, inos
+}
+
+// VerifReaddirnames exposes readdirnames.
+func VerifReaddirnames(dir string) (names []string, inos []uint64, err error) {
+	nis, err := readdirnames(dir)
+	for _, ni := range nis {
+		names = append(names, ni.name)
+		inos = append(inos, ni.ino)
+	}
+	return names, inos, err
+}
+
+// VerifCollected is one node of the two FileInfo trees built by collectFileInfoForChanges.
+type VerifCollected struct {
+	Path   string
+	In1    bool
+	In2    bool
+	IsDir1 bool
+	IsDir2 bool
+}
+
+func verifDump(info *FileInfo, side int, out map[string]*VerifCollected) {
+	if info == nil {
+		return
+	}
+	p := info.path()
+	c := out[p]
+	if c == nil {
+		c = &VerifCollected{Path: p}
+		out[p] = c
+	}
+	if side == 1 {
+		c.In1, c.IsDir1 = true, info.isDir()
+	} else {
+		c.In2, c.IsDir2 = true, info.isDir()
+	}
+	for _, ch := range info.children {
+		verifDump(ch, side, out)
+	}
+}
+
+// VerifCollectFileInfoForChanges exposes the two pruned trees of the linux walker.
+func VerifCollectFileInfoForChanges(dir1, dir2 string) (map[string]*VerifCollected, error) {
+	r1, r2, err := collectFileInfoForChanges(dir1, dir2)
+	if err != nil {
+		return nil, err
+	}
+	out := map[string]*VerifCollected{}
+	verifDump(r1, 1, out)
+	verifDump(r2, 2, out)
+	return out, nil
+}
+
+func VerifCanonicalTarName(name string, isDir bool) string { return canonicalTarName(name, isDir) }
+func VerifSameFsTime(a, b time.Time) bool                  { return sameFsTime(a, b) }
+func VerifBoundTime(t time.Time) time.Time                 { return boundTime(t) }
+func VerifLatestTime(a, b time.Time) time.Time             { return latestTime(a, b) }
+func VerifGetWalkRoot(src, include string) string          { return getWalkRoot(src, include) }
+func VerifIsWithin(dir, path string) bool                  { return isWithin(dir, path) }
+func VerifRemapIDs(m user.IdentityMapping, hdr *tar.Header) error {
+	return remapIDs(m, hdr)
+}
